@@ -31,6 +31,8 @@ fn new_shared(n: usize) -> Arc<Shared> {
         unblocked_returns: AtomicUsize::new(0),
         foreign: AtomicUsize::new(0),
         exit_on_unblock: AtomicBool::new(false),
+        sent: AtomicUsize::new(0),
+        client_trouble: AtomicUsize::new(0),
     })
 }
 
@@ -189,11 +191,25 @@ fn workload_a(ctx: &Ctx, env: &Env, rng: &mut Rng, cs: u64) {
             wind_down(&server, &sh, rh);
             return;
         }
-        // a token is queued (or lost) while receivers remain blocked
-        verdict = Some((
-            "C17/A/fewer-receivers-released-than-unblocks",
-            format!("{} unblock calls released only {} of {} blocked receivers (tokens still queued: {})", u, released, c, snap.tokens),
-        ));
+        // The anomaly is a token that stays queued while a receiver is blocked inside recv, or a
+        // token that vanished although every remaining receiver is blocked inside recv. Receiver
+        // threads that did not even get to call recv (starved harness threads) prove nothing.
+        let remaining = c - released;
+        if snap.tokens >= 1 && snap.blocked_pop >= 1 {
+            verdict = Some((
+                "C17/A/fewer-receivers-released-than-unblocks",
+                format!("{} unblock calls released only {} of {} receivers: {} token(s) still queued while {} receiver(s) are blocked in recv", u, released, c, snap.tokens, snap.blocked_pop),
+            ));
+        } else if released + snap.tokens < u && snap.blocked_pop == remaining {
+            verdict = Some((
+                "C17/A/fewer-receivers-released-than-unblocks",
+                format!("{} unblock calls released only {} of {} receivers and {} token(s) are queued: a token was lost (all {} remaining receivers are blocked in recv)", u, released, c, snap.tokens, remaining),
+            ));
+        } else {
+            rep.inconclusive("A: receivers were not inside recv when the unblocks were counted (harness threads starved)");
+            wind_down(&server, &sh, rh);
+            return;
+        }
     } else {
         let mut seen = std::collections::HashSet::new();
         for d in &del {
@@ -350,7 +366,7 @@ fn workload_b(ctx: &Ctx, env: &Env, rng: &mut Rng, cs: u64) {
                     }
                 }
             }
-            Op::RecvTimeout(us) => lib(|| server.recv_timeout(Duration::from_micros(*us))).map_err(|_| ()),
+            Op::RecvTimeout(us) => lib(|| server.recv_timeout(crate::p07::timeout_of(*us))).map_err(|_| ()),
             Op::TryRecv => lib(|| server.try_recv()).map_err(|_| ()),
         };
         let el = t0.elapsed();
@@ -422,7 +438,7 @@ fn workload_c(ctx: &Ctx, env: &Env, rng: &mut Rng, cs: u64) {
     let server = env.server.clone();
     let trial = cs & 0xffff_ffff;
     let c = rng.range(2, 7);
-    let touts = [0u64, 300, 900, 2000, 5000, 20000];
+    let touts = [0u64, 300, 900, 2000, 5000, 20000, u64::MAX];
     let mut scripts = Vec::new();
     let nblocking = rng.range(1, c);
     for i in 0..c {
